@@ -11,6 +11,9 @@ package v1
 
 import (
 	"errors"
+	"fmt"
+	"sort"
+	"runtime"
 	"testing"
 	"time"
 
@@ -118,6 +121,7 @@ func (d *c12Driver) Update(h int64, txs [][]byte, codes []uint32, pre, post *int
 		qf = mempool.PostCheckMaxGas(*post)
 	}
 	var pending int
+	base := runtime.NumGoroutine()
 	func() {
 		d.mp.Lock()
 		defer d.mp.Unlock()
@@ -139,6 +143,11 @@ func (d *c12Driver) Update(h int64, txs [][]byte, codes []uint32, pre, post *int
 		done := d.mp.Size() == 0 || d.mp.notifiedTxsAvailable
 		d.mp.Unlock()
 		if done && d.sc.LogLen() >= pending {
+			// let the round's goroutines (one per transaction plus the one that signals) exit, so
+			// that a straggler cannot signal "available" during a later round
+			for i := 0; i < 40000 && runtime.NumGoroutine() > base; i++ {
+				time.Sleep(50 * time.Microsecond)
+			}
 			return
 		}
 		if time.Now().After(deadline) {
@@ -196,7 +205,8 @@ func TestVerifC12V1(t *testing.T) {
 	root := vg.NewRand(vg.Seed() ^ 0xc121)
 	cs := vg.NewCases("C12", "c12_v1", "TM.C12.Exec")
 	vg.ShardSize = 12
-	n := vg.Scale(150, 20000)
+	n := vg.Scale(300, 20000)
+	events := map[string]int{}
 	for k := 0; k < vg.C12NDirected+n; k++ {
 		id := cs.NextID()
 		if !cs.Want(id) {
@@ -206,13 +216,17 @@ func TestVerifC12V1(t *testing.T) {
 		if k < vg.C12NDirected {
 			directed = k
 		}
-		term, descr, kind, nontrivial, ok := vg.C12History(root.Fork(uint64(k)), true, directed, c12New)
+		term, descr, kind, nontrivial, ok := vg.C12History(root.Fork(uint64(k)), true, directed, c12New, events)
 		if !ok {
 			cs.Count("skipped-equal-arrival-stamps", 1)
 			continue
 		}
 		cs.Add(id, kind, nontrivial, term, descr)
 	}
+	for k, n := range events {
+		cs.Notes = append(cs.Notes, fmt.Sprintf("%s=%d", k, n))
+	}
+	sort.Strings(cs.Notes)
 	if err := cs.Write(); err != nil {
 		t.Fatal(err)
 	}
